@@ -458,6 +458,14 @@ func GenPlan(prop string, seed uint64) *Plan {
 			budget--
 		}
 	}
+	if prop == "C02" && len(p.Byz) > 0 && (p.Ruleset == "fasthotstuff" || p.Knobs["aggqc"] == 1) && p.Crypto == "ecdsa" && mix(p.Inner, 0x65637265)%3 == 0 {
+		// ECDSA verifies the entries of a multi-signature concurrently: aggregates replayed with altered views, entries
+		// and surplus signatures, followed by other forgeries, exercise what a verification leaves behind for the next
+		p.Byz[0].Kind, p.Byz[0].Acts, p.Byz[0].Rate = "script", []string{"aggreplay", "wrongblock", "subquorum"}, 1.0
+		if p.EarlyTimer == 0 {
+			p.EarlyTimer = 0.1
+		}
+	}
 	if prop == "C07" && len(p.Byz) > 0 && (p.Ruleset == "fasthotstuff" || p.Knobs["aggqc"] == 1) && mix(p.Inner, 0x61747465)%2 == 0 {
 		// a Byzantine replica whose timeouts alternately attest the newest genuine QC and nothing, on lossy links with
 		// early timers: aggregates with and without that QC reach different honest replicas
